@@ -51,6 +51,13 @@ class Query:
         # z3 prints its internal "divisor known to be non-zero" operators; they coincide with the standard ones there
         for op in ("bvsdiv", "bvudiv", "bvsrem", "bvurem", "bvsmod"):
             body = body.replace("(%s_i " % op, "(%s " % op)
+        # inputs that do not occur in the formula are still declared, so that get-value can name them
+        extra = ""
+        for c in self.inputs:
+            n = sym(c)
+            if ("(declare-fun %s " % n) not in body and ("(declare-const %s " % n) not in body:
+                extra += "(declare-fun %s () %s)\n" % (n, c.sort().sexpr())
+        body = body + extra
         tail = "(check-sat)\n"
         if self.inputs:
             tail += "(get-value (%s))\n" % " ".join(sym(c) for c in self.inputs)
